@@ -758,6 +758,64 @@ func (e *enc) specCall(env *specEnv, n *SCall) (tval, error) {
 			return tval{}, fmt.Errorf("NVisited() is only available in invariants of a loop that ranges over a map")
 		}
 		return tval{fmt.Sprintf("(Card_%s %s)", env.visitedSort, env.visited), intTy, "Int"}, nil
+	case "SumVals":
+		// SumVals(m): the sum of the values of an int-valued map (axioms: empty map, update of one key)
+		as, err := args()
+		if err != nil || len(as) != 1 || !strings.HasPrefix(as[0].sort, "Map_") || !strings.HasSuffix(as[0].sort, "_Int") {
+			return tval{}, fmt.Errorf("SumVals(m) needs a map with integer values")
+		}
+		ms := as[0].sort
+		mt, _ := as[0].ty.Underlying().(*types.Map)
+		if mt == nil {
+			return tval{}, fmt.Errorf("SumVals(m): not a map")
+		}
+		ks := e.so.of(mt.Key())
+		f := e.uf("MapSum_"+clean(ms), []string{fmt.Sprintf("(Array %s Bool)", ks), fmt.Sprintf("(Array %s Int)", ks)}, "Int")
+		e.once("mapsum#"+ms, func() {
+			e.assumps["SumVals: sum of the values of a finite int-valued map: 0 for the empty map; updating one key changes the sum by the difference of the new and the old value of that key"] = true
+			e.decls = append(e.decls,
+				fmt.Sprintf("(assert (forall ((v (Array %s Int))) (! (= (%s ((as const (Array %s Bool)) false) v) 0) :pattern ((%s ((as const (Array %s Bool)) false) v)))))", ks, f, ks, f, ks),
+				fmt.Sprintf("(assert (forall ((d (Array %[1]s Bool)) (v (Array %[1]s Int)) (k %[1]s) (x Int)) (! (= (%[2]s (store d k true) (store v k x)) (+ (%[2]s d v) (- x (ite (select d k) (select v k) 0)))) :pattern ((%[2]s (store d k true) (store v k x))))))", ks, f))
+		})
+		return tval{fmt.Sprintf("(%s (dom_%s %s) (val_%s %s))", f, ms, as[0].t, ms, as[0].t), intTy, "Int"}, nil
+	case "ExtCall":
+		// ExtCall("import/path.Func", args...): the (deterministic, uninterpreted) result of an external function, the very
+		// function symbol the encoder uses for calls of it in the code
+		if len(n.Args) < 1 {
+			return tval{}, fmt.Errorf("ExtCall(\"pkg/path.Func\", args...)")
+		}
+		lit, ok := n.Args[0].(*SStr)
+		if !ok {
+			return tval{}, fmt.Errorf("ExtCall needs a literal function name")
+		}
+		i := strings.LastIndex(lit.V, ".")
+		if i < 0 {
+			return tval{}, fmt.Errorf("ExtCall: %q is not pkg/path.Func", lit.V)
+		}
+		pk := e.w.ByPath[lit.V[:i]]
+		if pk == nil || pk.Types == nil {
+			return tval{}, fmt.Errorf("ExtCall: package %s is not loaded", lit.V[:i])
+		}
+		fobj, ok := pk.Types.Scope().Lookup(lit.V[i+1:]).(*types.Func)
+		if !ok {
+			return tval{}, fmt.Errorf("ExtCall: no function %s", lit.V)
+		}
+		sig := fobj.Type().(*types.Signature)
+		if sig.Results().Len() != 1 || sig.Params().Len() != len(n.Args)-1 {
+			return tval{}, fmt.Errorf("ExtCall: %s needs %d arguments and one result", lit.V, sig.Params().Len())
+		}
+		var sorts, ts []string
+		for j := 1; j < len(n.Args); j++ {
+			v, err := e.specX(env, n.Args[j])
+			if err != nil {
+				return tval{}, err
+			}
+			sorts = append(sorts, e.so.of(sig.Params().At(j-1).Type()))
+			ts = append(ts, v.t)
+		}
+		rty := sig.Results().At(0).Type()
+		f := e.uf(fmt.Sprintf("f_%s_%d", clean(lit.V), 0), sorts, e.so.of(rty))
+		return e.mkT(fmt.Sprintf("(%s %s)", f, strings.Join(ts, " ")), rty), nil
 	case "Readable":
 		as, err := args()
 		if err != nil || len(as) != 1 || as[0].sort != "String" {
